@@ -89,6 +89,11 @@ def main(argv=None):
                 st_error = AnalysisError(f'{prop}.selftest', ','.join(regress),
                                          'SELFTEST-REGRESSION: a seeded breakage that was reported as a finding now only '
                                          'fails closed: ' + str(st['detail'][regress[0]])[:200])
+            # a variant that no longer applies to the current tree tests nothing: it has to be rebased, not ignored
+            if st['skipped'] and st_error is None:
+                st_error = AnalysisError(f'{prop}.selftest', ','.join(st['skipped'][:6]),
+                                         'SELFTEST-STALE: self-test variants no longer apply to the current tree '
+                                         '(rebase the patch / mutant anchor)')
             # behaviour-preserving refactorings must leave the check silent
             if st['false_alarms'] and st_error is None:
                 fa = st['false_alarms']
